@@ -65,7 +65,7 @@ async fn read_packets(v: u8, s: &mut DuplexStream, buf: &mut BytesMut, want: usi
     }
 }
 
-async fn run(pv: u8, sv: u8, mask: u32) -> Value {
+async fn run(pv: u8, sv: u8, mask: u32, subid: bool) -> Value {
     let config = RouterConfig { max_connections: 10, max_outgoing_packet_count: 10, max_segment_size: 100 * 1024, max_segment_count: 10, custom_segment: None,
         initialized_filters: None, shared_subscriptions_strategy: Strategy::RoundRobin };
     let tx = Router::new(0, config).spawn();
@@ -81,7 +81,7 @@ async fn run(pv: u8, sv: u8, mask: u32) -> Value {
     let mut problems: Vec<String> = Vec::new();
     for (c, _, b, v, id) in ends.iter_mut() {
         c.write_all(&connect_bytes(*v, id)).await.unwrap();
-        let got = read_packets(*v, c, b, 1, 500).await;
+        let got = read_packets(*v, c, b, 1, 5000).await;
         if got.first().map_or(true, |p| p["t"] != "connack") { problems.push(format!("{id}: no connack: {got:?}")); }
     }
     // subscribe x/# at QoS 1
@@ -89,9 +89,13 @@ async fn run(pv: u8, sv: u8, mask: u32) -> Value {
         let (c, _, b, v, _) = &mut ends[0];
         let mut w = BytesMut::new();
         if *v == 4 { let mut s = rumqttc::Subscribe::new("x/#", rumqttc::QoS::AtLeastOnce); s.pkid = 1; rumqttc::Packet::Subscribe(s).write(&mut w, 1 << 20).unwrap(); }
-        else { let mut s = c5::Subscribe::new(c5::Filter::new("x/#", rumqttc::v5::mqttbytes::QoS::AtLeastOnce), None); s.pkid = 1; c5::Packet::Subscribe(s).write(&mut w, None).unwrap(); }
+        else {
+            // a v5 subscriber may attach a subscription identifier; the router then adds it to the publisher's properties
+            let props = if subid { Some(c5::SubscribeProperties { id: Some(7), user_properties: vec![] }) } else { None };
+            let mut s = c5::Subscribe::new(c5::Filter::new("x/#", rumqttc::v5::mqttbytes::QoS::AtLeastOnce), props); s.pkid = 1; c5::Packet::Subscribe(s).write(&mut w, None).unwrap();
+        }
         c.write_all(&w).await.unwrap();
-        let got = read_packets(*v, c, b, 1, 500).await;
+        let got = read_packets(*v, c, b, 1, 5000).await;
         if got.first().map_or(true, |p| p["t"] != "suback") { problems.push(format!("sub: no suback: {got:?}")); }
     }
     // publish
@@ -124,7 +128,7 @@ async fn run(pv: u8, sv: u8, mask: u32) -> Value {
     }
     let got = {
         let (c, _, b, v, _) = &mut ends[0];
-        read_packets(*v, c, b, 1, 800).await
+        read_packets(*v, c, b, 1, 5000).await
     };
     let fwd = got.iter().find(|p| p["t"] == "publish").cloned();
     match &fwd {
@@ -143,10 +147,10 @@ async fn run(pv: u8, sv: u8, mask: u32) -> Value {
         }
     }
     // the publisher's connection must still be alive and acknowledged
-    let ack = { let (c, _, b, v, _) = &mut ends[1]; read_packets(*v, c, b, 1, 500).await };
+    let ack = { let (c, _, b, v, _) = &mut ends[1]; read_packets(*v, c, b, 1, 5000).await };
     if !ack.iter().any(|p| p["t"] == "puback") { problems.push(format!("publisher got no puback: {ack:?}")); }
     for (_, t, _, _, _) in ends.iter() { t.abort(); }
-    json!({"pub": pv, "sub": sv, "mask": mask, "ok": problems.is_empty(), "problems": problems, "forward": fwd})
+    json!({"pub": pv, "sub": sv, "mask": mask, "subid": subid, "ok": problems.is_empty(), "problems": problems, "forward": fwd})
 }
 
 #[tokio::main(flavor = "multi_thread", worker_threads = 8)]
@@ -155,7 +159,8 @@ async fn main() {
     let a: Vec<String> = std::env::args().collect();
     let mut f = std::io::BufWriter::new(std::fs::File::create(&a[1]).unwrap());
     let mut hs = Vec::new();
-    for pv in [4u8, 5] { for sv in [4u8, 5] { for mask in 0..(if pv == 5 { 32 } else { 1 }) { hs.push(tokio::spawn(run(pv, sv, mask))); } } }
+    for pv in [4u8, 5] { for sv in [4u8, 5] { for subid in [false, true] { if subid && sv == 4 { continue; }
+        for mask in 0..(if pv == 5 { 32 } else { 1 }) { hs.push(tokio::spawn(run(pv, sv, mask, subid))); } } } }
     let (mut n, mut bad) = (0, Vec::new());
     for h in hs {
         let r = match h.await { Ok(r) => r, Err(e) => json!({"ok": false, "problems": [format!("task panicked: {e}")]}) };
